@@ -6,9 +6,7 @@ open BindgenModel
 def dispatch (line : String) : String :=
   match (line.trimAscii.toString.splitOn " ").filter (· ≠ "") with
   | "bf" :: rest => Driver.C03.handle rest
-  | "dep" :: rest => Driver.C17.handleDep rest
-  | "inc" :: rest => Driver.C17.handleInc rest
-  | "cargo" :: rest => Driver.C17.handleCargo rest
+  | "c17" :: rest => Driver.C17.handle rest
   | _ => "bad-op"
 
 partial def loop (h : IO.FS.Stream) (out : IO.FS.Stream) : IO Unit := do
